@@ -6,6 +6,7 @@ From Coq Require Import String List ZArith Bool.
 From Coq Require Import Ascii NArith.
 From PV Require Import Model_scsv Proofs_scsv Model_scsv_frame Proofs_scsv_frame Model_scsv_header Proofs_scsv_header.
 From PV Require Import Model_scsv_py Gen_scsv Inst_scsv Inst_scsv_save Inst_scsv_header Proofs_scsv_faults.
+From PV Require Import Model_memo Proofs_memo Proofs_scsv_session.
 Import ListNotations.
 Open Scope string_scope.
 
@@ -527,3 +528,27 @@ Theorem C16_gen_write_header_is_model : forall O p s co kv l units,
   | Err e => Err e
   end.
 Proof. exact gen_write_header_eq. Qed.
+
+(* ---- call histories: `_parse_scsv_cell` behind a result cache (Model_memo; seeded change C16f) ----
+   a cache that hands out copies is invisible on EVERY history of calls as soon as its key equality separates arguments with
+   different results (any oracles, any key equality) ... *)
+Theorem C16_parse_cell_cache_transparent : forall (O : oracles) (same : cellarg -> cellarg -> bool),
+  (forall a b, same a b = true -> pc O a = pc O b) ->
+  forall ops, run (pc O) same false [] ops = spec (pc O) ops.
+Proof. exact parse_cell_cache_transparent. Qed.
+
+(* ... and Python's == / hash on the fill does not: 0 == 0.0, so after a string column with fill 0 the missing cells of a string column
+   with fill 0.0 are read back as '0'; 0.0 == -0.0, so a float column with fill -0.0 reads its missing cells back as +0.0 *)
+Theorem C16_parse_cell_cache_python_equality_refuted :
+  py_same wit_a wit_b = true /\
+  run (pc toyO) py_same false [] [Call wit_a; Call wit_b] = [Ok (CStr "0"); Ok (CStr "0")] /\
+  spec (pc toyO) [Call wit_a; Call wit_b] = [Ok (CStr "0"); Ok (CStr "0.0")].
+Proof. exact parse_cell_cache_python_equality_refuted. Qed.
+
+Theorem C16_parse_cell_cache_signed_zero_refuted :
+  let a : cellarg := (TFloat, "NA", "NA", YFloat (FFin "0.0")) in
+  let b : cellarg := (TFloat, "NA", "NA", YFloat (FFin "-0.0")) in
+  py_same a b = true /\
+  run (pc toyO) py_same false [] [Call a; Call b] = [Ok (CFloat (FFin "0.0")); Ok (CFloat (FFin "0.0"))] /\
+  spec (pc toyO) [Call a; Call b] = [Ok (CFloat (FFin "0.0")); Ok (CFloat (FFin "-0.0"))].
+Proof. exact parse_cell_cache_signed_zero_refuted. Qed.
